@@ -470,6 +470,7 @@ func OpaqueDispatch(fn *ssa.Function) string {
 		if depth > 8 || v == nil {
 			return false
 		}
+
 		switch x := v.(type) {
 		case *ssa.UnOp:
 			if g, ok := x.X.(*ssa.Global); ok {
@@ -505,6 +506,14 @@ func OpaqueDispatch(fn *ssa.Function) string {
 				}
 			}
 		case *ssa.Alloc:
+			// a local copy of a table entry (the loop variable of `for _, step := range steps`)
+			if x.Referrers() != nil {
+				for _, ref := range *x.Referrers() {
+					if st, isSt := ref.(*ssa.Store); isSt && st.Addr == ssa.Value(x) && fromTable(st.Val, depth+1) {
+						return true
+					}
+				}
+			}
 			if arr, ok := x.Type().Underlying().(*types.Pointer).Elem().Underlying().(*types.Array); ok {
 				_, isFn := arr.Elem().Underlying().(*types.Signature)
 				if isFn {
